@@ -212,7 +212,10 @@ class BatchProcessing(Scheduling):
         else:
             if cluster.num_provisioned_obs < self.max_resources_split:
                 provision = self._max_resource_provision(cluster, workflow_plan)
-                if provision < self.min_resource_per_workflow:
+                # A reservation needs at least one machine: with a minimum of
+                # 0 and no machine free, an empty 'reservation' would be
+                # counted by the cluster without ever being released.
+                if provision < 1 or provision < self.min_resource_per_workflow:
                     return False
                 else:
                     logger.info(f"{provision} machines for {workflow_plan.id}")
